@@ -179,6 +179,10 @@ func (e *Engine) invoke(st *State, fr *Frame, recv Val, m *types.Func, args []Va
 	}
 	if tag.Op == OConst {
 		T := typeOfTag[tag.Val]
+		if T == nil {
+			// nil interface: the nil-dereference obligation above fails, the path ends in a panic
+			panic(pathEnd{"method call on nil interface"})
+		}
 		e.invokeOn(st, fr, recv, T, m, args, in, bind)
 		return
 	}
